@@ -19,7 +19,8 @@ RULE = (
     "was attached: nothing / invert / shift 1..3 / reorient to corner 0..3 (a short history), duplicate definition by a "
     "second operation: none / same direction / opposite direction, in both insertion orders, frame); assemble+write on the "
     "real library, the edges section is read back and compared with the curve the user described (circle model for "
-    "angle/origin arcs, polyline for spline/polyLine). non-trivial = a direction-dependent or degenerate edge kind, or a duplicate"
+    "angle/origin arcs, polyline for spline/polyLine); every (kind, position) also on an operation that is inverted or mirrored "
+    "as a whole after its edges were given. non-trivial = a direction-dependent or degenerate edge kind, or a duplicate"
 )
 ASSUMPTIONS = [
     "an edge attached as face.add_edge(i, data) describes the curve from face point i to point i+1 (side edge i: bottom i to top i)",
@@ -30,6 +31,7 @@ ASSUMPTIONS = [
 ANGLES = {"angle+": 0.9, "angle-": -1.3, "angle++": 4.0, "angle--": -4.3}  # two reflex sector angles, one of either sign
 KINDS = ["arc", "origin", "angle+", "angle-", "angle++", "angle--", "spline", "polyline", "project1", "project2", "oncurve", "line", "collinear_arc", "zero_length"]
 DIRECTED = {"angle+", "angle-", "angle++", "angle--", "spline", "polyline", "oncurve"}
+OP_USAGES = ["op_invert", "op_mirror"]  # the finished operation inverted / mirrored about a skew plane off the origin
 USAGES = ["given", "invert", "shift1", "shift2", "shift3", "reorient0", "reorient1", "reorient2", "reorient3"]
 
 
@@ -39,7 +41,7 @@ def cases(tier, seed):
     for fr in frames:
         for kind in KINDS:
             for slot in range(12):
-                usages = USAGES if slot < 8 else ["given"]
+                usages = (USAGES if slot < 8 else ["given"]) + OP_USAGES
                 for usage in usages:
                     if kind == "zero_length" and (slot < 8 or usage != "given"):
                         continue
@@ -184,6 +186,26 @@ def build(case):
     loft = cb.Loft(bottom, top)
     if slot >= 8:
         loft.add_side_edge(slot - 8, make())
+    if case["usage"] == "op_invert":
+        loft.invert()  # same curve between the same points
+    elif case["usage"] == "op_mirror":
+        n = frame_vec(FRAMES[case["frame"]], [0.3, -1.0, 0.5])
+        o = P.mean(axis=0) + frame_vec(FRAMES[case["frame"]], [0.2, 1.4, -0.3])
+        loft.mirror(list(n * 1.7), list(o))
+        nu = n / np.linalg.norm(n)
+
+        def mir(x):
+            x = np.asarray(x, float)
+            return x - 2 * float((x - o) @ nu) * nu
+
+        P = np.array([mir(x) for x in P])
+        ref = dict(ref)
+        for key in ("A", "B", "point", "mid"):
+            if key in ref:
+                ref[key] = mir(ref[key])
+        for key in ("points", "curve_points"):
+            if key in ref:
+                ref[key] = [mir(x) for x in ref[key]]
     ops = [loft]
     if case["dup"] == "stack":
         # second operation built on the very same Face object
